@@ -110,6 +110,9 @@ def tune_c03(rng, k):
     if rng.random() < 0.3:
         k["w"]["rehome"] = 1.0
     if rng.random() < 0.3:
+        k["settings"] = {"enteringExcludedRegionGcode": gen.rand_script(rng, "ENTER"),
+                         "exitingExcludedRegionGcode": gen.rand_script(rng, "EXIT")}
+    if rng.random() < 0.3:
         k["wipe"] = 0.3
     if rng.random() < 0.3:
         k["double_retract"] = 0.3
@@ -131,6 +134,10 @@ def tune_c04(rng, k):
         k["w"]["g92e"] = 6
     if rng.random() < 0.3:
         k["w"]["rehome"] = 1.5       # G28 (full or partial) in the middle of the job, outside episodes
+    if rng.random() < 0.25:
+        k["w"]["at_switch"] = 2      # exclusion switched off and on in the middle of retract cycles
+    if rng.random() < 0.3:
+        k["w"]["units"] = 5          # unit switches in the middle of retract cycles
 
 
 tune_c05 = tune_c04
@@ -179,6 +186,9 @@ def tune_c06(rng, k):
         k["w"]["retract"] = 12
     if rng.random() < 0.3:
         k["w"]["upload"] = 5
+    if rng.random() < 0.25:
+        k["settings"]["atCommandActions"] = list(gen.INTERLEAVED_AT)   # two disable entries match "off"
+        k["w"]["at_switch"] = 4
 
 
 def tune_c14(rng, k):
@@ -205,6 +215,8 @@ def tune_c14(rng, k):
     k["p_foreign_at"] = 0.15
     if rng.random() < 0.4:
         k["w"]["at_config"] = 1.0      # the configured actions change mid-run
+    if not k.get("custom_at") and rng.random() < 0.25:
+        k["settings"] = dict(k.get("settings") or {}, atCommandActions=list(gen.INTERLEAVED_AT))
 
 
 def tune_c15(rng, k):
